@@ -139,6 +139,11 @@ def attr_token_docs():
             for a, nm in enumerate(names):
                 at = '{%s tok%dz|%s tok%dz}' % (nm, 10 + a, names[(a + 3) % len(names)], 30 + a)
                 out.append((stages.URIS[0], root, '', shape % tuple(at if j == i else '' for j in range(k))))
+    # link and image targets are raw text: tokens of every script, reference-like and percent-like ones, in href / src / alt
+    for k, base in enumerate(['w', '\u05e9', '\u0645', '\u00e9', '\U0001F600z', '\U00020BB7z', '&amp;w', '%20w', '&#38;w']):
+        n = 40 + 4 * k
+        for root in ('act', 'doc', 'judgment'):
+            out.append((stages.URIS[0], root, '', 'tok1z {{>http://x.y/%s%dz tok2z}} {{IMG %s%dz.png %s%dz tok3z}} {{>#%s%dz}} tok4z\n' % (base, n, base, n + 1, base, n + 2, base, n + 3)))
     return out
 
 def correspondence(ctx):
